@@ -951,26 +951,30 @@ func judge(entry string, out string, r reqSpec, hasECS bool) string {
 		}
 		// a failure met while chasing an alias of this question fails the whole question: follow the
 		// stored aliases of this question's partition and accept a failure that covers a name on the way
-		cur := reqLabels
-		for hop := 0; hop < 24; hop++ {
-			var next [][]byte
-			for _, e := range entries {
-				if e.alias != nil && oLabelsFoldEq(e.labels, cur) && e.qtype == r.id.qtype && e.class == r.id.class && e.cd == r.id.cd {
-					next = e.alias
+		// (every stored alias of a name is followed: the oracle's table may still hold superseded entries)
+		frontier := [][][]byte{reqLabels}
+		for hop := 0; hop < 24 && len(frontier) > 0; hop++ {
+			var nextFrontier [][][]byte
+			for _, cur := range frontier {
+				for _, e := range entries {
+					if e.alias == nil || !oLabelsFoldEq(e.labels, cur) || e.qtype != r.id.qtype || e.class != r.id.class || e.cd != r.id.cd {
+						continue
+					}
+					nextFrontier = append(nextFrontier, e.alias)
+					for _, f := range failures {
+						if f.zone && oIsSuffix(f.labels, e.alias) && f.class == r.id.class {
+							return "ok"
+						}
+						if !f.zone && oLabelsFoldEq(f.labels, e.alias) && f.qtype == r.id.qtype && f.class == r.id.class && f.cd == r.id.cd && !f.scope.IsValid() {
+							return "ok"
+						}
+					}
 				}
 			}
-			if next == nil {
-				break
+			if len(nextFrontier) > 64 {
+				nextFrontier = nextFrontier[:64]
 			}
-			cur = next
-			for _, f := range failures {
-				if f.zone && oIsSuffix(f.labels, cur) && f.class == r.id.class {
-					return "ok"
-				}
-				if !f.zone && oLabelsFoldEq(f.labels, cur) && f.qtype == r.id.qtype && f.class == r.id.class && f.cd == r.id.cd && !f.scope.IsValid() {
-					return "ok"
-				}
-			}
+			frontier = nextFrontier
 		}
 		return "FAIL sig=" + entry + "/fail/no-stored-failure-covers-this-question"
 	}
@@ -1581,6 +1585,61 @@ func execPipe(f []string) vlib.Res {
 			or = "FAIL sig=pipe/set/entry-identity-differs-from-admission"
 		}
 		return vlib.Res{Impl: "ok", Oracle: or}
+	case "sfr": // pipe sfr <ident> <id> <keyCD t|f>: Store.SetFromResponse (the resolver's DS/DNSKEY store seam): the CALLER names the partition
+		id := parseIdent(f[2])
+		eid := vlib.Atoi(f[3])
+		keyCD := f[4] == "t"
+		store().SetFromResponse(answerMsg(id, eid, ""), keyCD, time.Time{})
+		var ptr *mcache.CacheEntry
+		var at uint64
+		store().ForEach(func(_ bool, key uint64, e *mcache.CacheEntry) bool {
+			if ids := markerIDs(mcache.VerifC03EntryMsg(e)); len(ids) > 0 && ids[len(ids)-1] == eid {
+				ptr, at = e, key
+			}
+			return ptr == nil
+		})
+		if ptr == nil {
+			return vlib.Res{Impl: "not-stored"}
+		}
+		ls, _ := id.n.labels()
+		// the answer was obtained for the partition the caller resolved in
+		entries[eid] = &storedEntry{labels: ls, qtype: id.qtype, class: id.class, cd: keyCD, ptr: ptr}
+		got := mcache.VerifC03EntryIdent(ptr)
+		or := "ok"
+		switch {
+		case got.CD != keyCD:
+			or = fmt.Sprintf("FAIL sig=pipe/sfr/answer-for-cd=%s-filed-in-cd=%s-partition", vlib.B(keyCD), vlib.B(got.CD))
+		case at != xxhash.Sum64(oPreimage(id.n.pres, id.qtype, id.class, keyCD, netip.Prefix{})):
+			or = "FAIL sig=pipe/sfr/answer-filed-under-a-foreign-key"
+		}
+		return vlib.Res{Impl: "ok key=" + u64hex(at), Oracle: or, Tags: "nt"}
+	case "zfail", "zclear": // pipe zfail|zclear <question name,0,class> <zone name> <id>: Store.RecordZoneFailure / ClearZoneFailure
+		q := parseIdent(f[2])
+		zone := parseName(f[3])
+		eid := vlib.Atoi(f[4])
+		if f[1] == "zclear" {
+			store().ClearZoneFailure(q.q(), zone.pres)
+			// the oracle forgets the zone state of exactly that zone and class
+			zl, _ := zone.labels()
+			for k, fl := range failures {
+				if fl.zone && fl.class == q.class && oLabelsFoldEq(fl.labels, zl) {
+					delete(failures, k)
+				}
+			}
+			return vlib.Res{Impl: "ok", Tags: "nt"}
+		}
+		store().RecordZoneFailure(q.q(), zone.pres)
+		mcache.VerifC03FailureTag(pc, "authority", strconv.Itoa(eid))
+		zl, _ := zone.labels()
+		// every server of the zone failed while resolving a question of THIS class
+		failures[eid] = &storedFailure{zone: true, labels: zl, class: q.class}
+		impl := "ok unrecorded"
+		for h, pid := range mcache.VerifC03FailureDump(pc) {
+			if pid == strconv.Itoa(eid) {
+				impl = "ok f=" + u64hex(h)
+			}
+		}
+		return vlib.Res{Impl: impl, Tags: "nt"}
 	case "fset": // pipe fset <hashspec> <q|z> <ident> <id>
 		zone := f[3] == "z"
 		id := parseIdent(f[4])
